@@ -30,3 +30,26 @@ Definition bad_parses (cs : list stmt_case) : list Z := map c_id (filter bad_par
 Definition unbounded_stmts (cs : list stmt_case) : list Z := map c_id (filter unbounded cs).
 Definition reports (cs : list stmt_case) : list (Z * list (string * list Z)) :=
   map (fun c => (c_id c, filter (fun p => existsb (fun z => Z.ltb z 100) (snd p)) (report (c_win c) (c_tree c)))) cs.
+
+(* ---------- the day under which the trace write path files the attribute rows of a span ----------
+   onSpan (writer/utils/unmarshal/builder.go, after fix 71ffd5d): MDate = time.Unix(ts/1e9, 0).UTC();
+   ch-go proto.ToDate(t) = (t.Unix() + zone offset of t) / 86400, and a UTC time has offset 0: the process
+   time zone `tz` (seconds east) plays no part.  Before the fix the time was in time.Local and the offset was
+   added: attrs_stored_day_local. *)
+Definition attrs_stored_day (tz ts_ns : Z) : Z := ((ts_ns / 1000000000) / 86400)%Z.
+Definition attrs_stored_day_local (tz ts_ns : Z) : Z := ((ts_ns / 1000000000 + tz) / 86400)%Z.
+
+Record day_case := { dc_id : Z; dc_off : Z; dc_ts : Z; dc_days : list Z }.
+(* model = implementation: every attribute row of the span carries the model's day (and there is one) *)
+Definition day_mismatch (c : day_case) : bool :=
+  match dc_days c with
+  | [] => true
+  | l => negb (forallb (Z.eqb (attrs_stored_day (dc_off c) (dc_ts c))) l)
+  end.
+(* the property's demand on the OBSERVED day: a reader asking for any window that contains the span's
+   timestamp bounds the index by date >= day(from) (or FormatFromDate) and date <= day(to): the stored day
+   must be the UTC day of the timestamp *)
+Definition day_spec_violation (c : day_case) : bool :=
+  negb (forallb (fun d => Z.eqb d (day_of_ns (dc_ts c))) (dc_days c)).
+Definition day_mismatches (cs : list day_case) : list Z := map dc_id (filter day_mismatch cs).
+Definition day_spec_violations (cs : list day_case) : list Z := map dc_id (filter day_spec_violation cs).
